@@ -974,3 +974,107 @@ def drv_history(case):
         step["after"] = [[k, proj.node(v, tok)] for k, v in store.items() if k in dict(before)]
         steps.append(step)
     return [{"op": "history", "steps": steps, "handles": sorted(case["handles"])}]
+
+# ============================================================================= behaviour beyond the listed properties (PuanExtra)
+def drv_x_model(case):
+    """short forms, id listings and the reduced polyhedron of one model"""
+    puan, pg = _mods()
+    m = _mk(case)
+    if proj.is_var(m) or m.errors() != []: return []
+    tok = proj.Tok()
+    out = []
+    for x in m.flatten()[:6]:
+        sh = x.to_short()
+        short = [tok(sh[0]), proj.I(sh[1]), [tok(i) for i in sh[2]], proj.I(sh[3]), [proj.I(sh[4][0]), proj.I(sh[4][1])]]
+        back = pg.AtLeast.from_short(sh)
+        e = {"op": "x_short", "model": proj.node(x, tok), "short": short, "back": proj.node(back, tok),
+             "variables": [tok(i) for i in (x.variables if not proj.is_var(x) else [x.id])]}
+        if proj.is_var(x):
+            e["atomic"] = []; e["compound"] = []
+        else:
+            e["atomic"] = [tok(p.id) for p in x.atomic_propositions]; e["compound"] = [tok(p.id) for p in x.compound_propositions]
+        out.append(e)
+    lv = proj.leaves(m)
+    box = _box(lv)
+    if box is not None and len(box) <= 128 and len(m.flatten()) <= 12:
+        try:
+            P = m.to_ge_polyhedron(active=True, reduced=True)
+            rows, cols = proj.polyhedron(P, tok)
+            out.append({"op": "x_reduced_poly", "model": proj.node(m, tok), "rows": rows, "cols": cols})
+        except BaseException as ex:
+            out.append({"op": "x_reduced_poly", "model": proj.node(m, tok), "rows": [], "cols": [{"id": "raised_" + type(ex).__name__, "lo": 0, "hi": 0}]})
+    return out
+
+def drv_x_poly(case):
+    import numpy
+    tok = proj.Tok()
+    P = _poly(case)
+    base = _pp(P, tok)
+    out = []
+    for i in range(len(base["rows"])):
+        n = 1
+        for j, c in enumerate(base["cols"]):
+            if base["rows"][i]["a"][j] != 0: n *= c["hi"] - c["lo"] + 1
+        if n > 2000 or all(a == 0 for a in base["rows"][i]["a"]): continue
+        if len({c["hi"] - c["lo"] for c in base["cols"]}) > 1:
+            continue       # observation O9: row_distribution raises ValueError (ragged array) when the columns' ranges differ in width
+        d = P.row_distribution(i)
+        out.append({"op": "x_row_dist", "rows": base["rows"], "cols": base["cols"], "row": i + 1,
+                    "dist": [[proj.I(a), proj.I(b)] for a, b in numpy.asarray(d).tolist()], "stretch_int": proj.I(P.row_stretch_int(i))})
+    return out
+
+def drv_x_arrays(case):
+    import numpy, puan.ndarray as pnd
+    out = []
+    x = case["x"]
+    if case["kind"] == "vec":
+        delta = case["delta"]
+        a = pnd.integer_ndarray(numpy.array(x, dtype=numpy.int64))
+        dl = numpy.array(delta, dtype=numpy.int64) if len(set(delta)) > 1 else int(delta[0])
+        out.append({"op": "x_neighbours", "x": x, "delta": delta,
+                    "add": _nest(numpy.asarray(a.get_neighbourhood(method="addition", delta=dl)).tolist()),
+                    "sub": _nest(numpy.asarray(a.get_neighbourhood(method="subtraction", delta=dl)).tolist()),
+                    "all": _nest(numpy.asarray(a.get_neighbourhood(method="all", delta=dl)).tolist())})
+        xb = [1 if v > 0 else 0 for v in x]
+        b = pnd.boolean_ndarray(numpy.array(xb, dtype=numpy.int64))
+        f = lambda r: _nest((numpy.asarray(r) * 1).tolist())
+        out.append({"op": "x_bool_neighbours", "x": xb, "on_off": f(b.get_neighbourhood("on_off")), "on": f(b.get_neighbourhood("on")),
+                    "off": f(b.get_neighbourhood("off"))})
+    else:
+        a = pnd.integer_ndarray(numpy.array(x, dtype=numpy.int64))
+        g = lambda r: _nest(numpy.asarray(r).astype(numpy.int64).tolist())
+        out.append({"op": "x_reduce2d", "x": x, "first0": g(a.reduce2d("first", 0)), "first1": g(a.reduce2d("first", 1)),
+                    "last0": g(a.reduce2d("last", 0)), "last1": g(a.reduce2d("last", 1)), "ranking": g(a.ranking())})
+    return out
+
+def drv_x_misc(case):
+    import puan, puan.misc, puan.logic.plog as pg
+    tok = proj.Tok()
+    out = []
+    d = dict(case["d"]); keys = list(case["keys"])
+    try:
+        r = ["value", puan.misc.or_get(dict(d), keys, case["default"])]
+    except KeyError:
+        r = ["raised", 0]
+    try:
+        rep = puan.misc.or_replace(dict(d), keys, case["value"]); rr = False
+    except KeyError:
+        rep, rr = {}, True
+    out.append({"op": "x_or_get", "d": [[tok(k), v] for k, v in d.items()], "keys": [tok(k) for k in keys], "has_default": case["default"] is not None,
+                "default": case["default"] if case["default"] is not None else 0, "res": r, "value": case["value"],
+                "replaced": [[tok(k), v] for k, v in rep.items()], "replaced_raised": rr})
+    lo, hi = case["lo"], case["hi"]
+    def raised(f):
+        try: f(); return False
+        except ValueError: return True
+    out.append({"op": "x_ctor", "lo": lo, "hi": hi, "bounds_raised": raised(lambda: puan.Bounds(lo, hi)),
+                "bool_raised": raised(lambda: puan.variable("v", (lo, hi), dtype="bool")) if lo <= hi else not (lo == 0 and hi == 1),
+                "compound_raised": raised(lambda: pg.All("a", variable=puan.variable("A", (lo, hi)))) if lo <= hi else True})
+    ids = list(case["ids"])
+    vs = puan.variable.from_strings(*ids)
+    srt = sorted(ids)
+    out.append({"op": "x_sorted", "inp": [tok(i) for i in ids], "out": [tok(v.id) for v in vs], "pos": [srt.index(v.id) for v in vs]})
+    mixed = [i if k % 2 else puan.variable(i, (1, 2)) for k, i in enumerate(ids)]
+    vm = puan.variable.from_mixed(*mixed)
+    out.append({"op": "x_sorted", "inp": [tok(i) for i in ids], "out": [tok(v.id) for v in vm], "pos": [srt.index(v.id) for v in vm]})
+    return out
